@@ -14,7 +14,7 @@ TOK = {"Add": "+", "Sub": "-", "Mul": "*", "Div": "/", "Mod": "%%", "AND": "&&",
 FLOATS = [0.5, 1.5, 2.0, 0.25, 3.75, 100.0, 0.125, 1024.0, 7.0, 0.0]
 INTS = [0, 1, 2, 3, 5, 7, 10, 42, 100, 9223372036854775807, 9223372036854775806, 4611686018427387904]
 STRS = ["", "a", "foo", "bar", "x y", "é", "@", "q\"q", "b\\s", "true", "1", "tuple", "日本", "line\nbreak"]
-NAMES = ["a", "b", "c", "d", "foo", "bar", "val", "x1", "y2", "name", "data", "cfg", "n", "m", "t", "lst", "tpl", "acc", "it", "k", "v"]
+NAMES = ["a", "b", "c", "d", "item", "item", "foo", "bar", "val", "x1", "y2", "name", "data", "cfg", "n", "m", "t", "lst", "tpl", "acc", "it", "k", "v"]
 FIELD_NAMES = ["a", "b", "c", "x", "y", "name", "val", "port", "host", "inner", "k1", "quoted field", "é"]
 IS_NAMES = ["null", "str", "int", "float", "tuple", "list", "func", "module", "bool"]
 
